@@ -190,6 +190,21 @@ add({"name": "geom_compare_formats", "file": ID, "anchor": r"\[\]\(const DFS::Im
      "sig": "static bool geom_compare_formats(const struct ImageFileFormat *left, const struct ImageFileFormat *right)",
      "rules": [(r"\b(left|right)\.geometry\.total_sectors\(\)", r"Geometry_total_sectors(&\1->geometry)", ">=2"), (r"\b(left|right)\.geometry\.", r"\1->geometry.", ">=1")]})
 
+# the name hints of make_candidate_list (C10 i: X and X.gz are probed with the same hints)
+add({"name": "candidate_hints", "file": ID,
+     "anchor": r"std::optional<DFS::Encoding> encoding_hint;", "region_end": r"std::vector<DFS::ImageFileFormat> candidates;",
+     "sig": "static void candidate_hints(struct NameM name, struct hints *out)",
+     "region_epilogue": "out->encoding = encoding_hint; out->interleaving = interleaving_hint; out->sides = sides_hint;\n",
+     "rules": [(r"std::optional<DFS::Encoding> encoding_hint;", "struct opt_int encoding_hint = { 0, 0 };", 1),
+               (r"std::optional<bool> interleaving_hint;", "struct opt_int interleaving_hint = { 0, 0 };", 1),
+               (r"std::optional<int> sides_hint;", "struct opt_int sides_hint = { 0, 0 };", 1),
+               (r"std::string base\(name\);", "struct NameM base = name;", "=0or1"),
+               (r"DFS::stringutil::remove_suffix\(&(\w+), (\"[^\"]*\")\);", r"remove_suffix_model(&\1, \2);", ">=0"),
+               (r"DFS::stringutil::ends_with\((\w+), (\"[^\"]*\")\)", r"ends_with_model(&\1, \2)", ">=8"),
+               (r"(\w+_hint) = DFS::Encoding::(\w+);", r"{ \1.has = 1; \1.val = Encoding_\2; }", ">=2"),
+               (r"(\w+_hint) = (false|true|\d+);", r"{ \1.has = 1; \1.val = \2; }", ">=3")],
+     "dropped": []})
+
 # ---- driveselector.cc / storage.cc (C16): SurfaceSelector is `unsigned int d_` by value -----------
 DS = "dfs/driveselector.cc"
 SSEL = (r"SurfaceSelector\(", "(surface_t)(")
@@ -649,6 +664,17 @@ add({"name": "write_span", "file": "dfs/cmd_extract_unused.cc",
                (r'std::cerr << "error: failed to write to " << file_name << ": "\s*<< strerror\(errno\) << "\\n";', "g_diag++;", 1),
                (r"(for \(sector_count_type sec = start_sector; sec < end_sector; \+\+sec\))", r"\1 SPAN_LOOP_CONTRACT", 1)],
      "dropped": ["diagnostic texts", "the output file name (see C12)"]})
+
+add({"name": "extract_unused_spans", "file": "dfs/cmd_extract_unused.cc",
+     "anchor": r"int begin = -1;\s*unsigned short count = 0;", "region_end": r"ostream_flag_saver restore_cout_flags\(std::cout\);",
+     "sig": "static bool extract_unused_spans(struct DataAccess *drive, sector_count_type last_sec, unsigned short *count_out)",
+     "region_epilogue": "*count_out = count; return true;\n",
+     "rules": [(r"DFS::sector_count_type sec = 0;", "sector_count_type sec = 0;", 1),
+               (r"std::optional<std::string> name = occupied_by->at\(sec\);", "struct opt_owner name = occupied_at(sec);", 1),
+               (r"if \(name\)", "if (name.has)", 1),
+               (r"write_span\(drive, dest_dir, ([^;]*?)\)\)", r"write_span_v(drive, \1))", 1),
+               (r"(for \(sector_count_type sec = 0; sec <= last_sec; \+\+sec\))", r"\1 SPANS_LOOP_CONTRACT", 1)],
+     "dropped": ["the destination directory argument of write_span (see C12)"]})
 
 # ---- track.cc (C06 iii, C07): check_track_is_supported ---------------------------------------------------------------
 ERR_SS = (r"ss << [^;]*;\s*error = ss\.str\(\);", "g_diag++;  /* diagnostic text dropped */")
